@@ -8,6 +8,8 @@ from .. import common, graphs, models, simrun, e2e
 from ..models import key, all_outs
 from . import simprops
 
+from ..probe import ProbeDied
+
 PROP = "C06"
 
 
@@ -61,7 +63,15 @@ def run_jobserver_case(root, g, tokens, j, k, faults, sleepy):
             fl[key(cmds[a % len(cmds)])] = dict(fail=code, fail_touch=False)
         targets = [key(e) for e in sim.g['edges']]
         req = sim.request(targets, j=j, k=k, faults=fl or None)
-        res = sim.execute(req)
+        sim.time_limit = 45
+        try:
+            res = sim.execute(req)
+        except ProbeDied as d:
+            detail = dict(tokens=tokens, j=j, k=k, faults=faults, manifest=graphs.manifest(sim.g)[-400:], died=d.died, output=d.stderr[-300:])
+            if d.died.get('timeout'):
+                return dict(kind="ninja did not terminate within %d s as a jobserver client (state %r when killed; every command had long finished)"
+                            % (d.died.get('seconds', 0), d.died.get('state_when_killed')), detail=detail), labels
+            return dict(kind="ninja died as a jobserver client: %s" % json.dumps(d.died), detail=detail), labels
         left = fifo.count()
         starts = [ev for ev in res['trace'] if ev['ev'] == 'start']
         if starts:
@@ -134,6 +144,14 @@ def replay_js(case):
 
 def run(tier):
     ck = simprops.run_prop(PROP, tier, n_quick=6000, n_thorough=80000, e2e=(400, 5000), all_schedules=(600, 10000), late_targets=(500, 6000))
+    # saved jobserver cases first (a fixed defect that comes back shows within a minute)
+    import glob
+    for path in sorted(glob.glob(os.path.join(common.VERIF, 'regress', '*_C06js_*.json'))):
+        case = json.load(open(path))['case']
+        why = replay_js(case)
+        ck.extra_cov['jobserver_regression_cases_replayed'] = ck.extra_cov.get('jobserver_regression_cases_replayed', 0) + 1
+        if why:
+            ck.violation(case, "regression file %s: [real binary, jobserver] %s" % (os.path.basename(path), why))
     r = common.run_workers(jobserver_worker, [(w, (800 if tier == 'thorough' else 25)) for w in range(common.NCPU)])
     ck.merge(r)
     for f in r.failures:
